@@ -62,13 +62,17 @@ Next ==
        [] e.e = "Crosslap" ->
             LET s1 == hst[e.h1]  s2 == hst[e.h2]  F1 == HF(e.h1)  F2 == HF(e.h2) IN
             /\ Step(ChkCrosslap(s1, F1, s2, F2, e), e,
-                    [hst EXCEPT ![e.h1] = [@ EXCEPT !.pos = IF s1.pos >= 0 /\ s1.sk /\ e.t11 >= 0 /\ (e.ret = 0 \/ e.t11 = s1.pos) THEN e.t11 ELSE -1, !.lap = 0],
+                    [hst EXCEPT ![e.h1] = [@ EXCEPT !.pos = IF s1.pos >= 0 /\ s1.sk /\ e.t11 >= 0 /\ (e.ret = 0 \/ e.t11 = s1.pos) THEN e.t11 ELSE -1,
+                                                    \* what the call took for the lap comes off a lapped region this handle still had in front of it
+                                                    !.lap = IF s1.pos >= 0 /\ e.t11 >= s1.pos /\ s1.lap > e.t11 - s1.pos THEN s1.lap - (e.t11 - s1.pos) ELSE 0],
                                 \* the lap region of the second handle: min of the two half short blocks (at most its own when the first position is unknown)
-                                ![e.h2] = [@ EXCEPT !.lap = IF e.ret = 0 /\ s2.pos >= 0 /\ s2.open
-                                                            THEN (IF s1.pos >= 0 /\ s1.open
-                                                                  THEN Min({HalfBs0At(F1, s1, IF "cur11" \in DOMAIN e THEN e.cur11 ELSE -1), HalfBs0At(F2, s2, e.cur)})
-                                                                  ELSE HalfBs0At(F2, s2, e.cur)) \div 2
-                                                            ELSE 0,
+                                \* (samples still pending from an EARLIER lap of this handle stay altered: the region does not shrink)
+                                ![e.h2] = [@ EXCEPT !.lap = LET new == IF e.ret = 0 /\ s2.pos >= 0 /\ s2.open
+                                                                      THEN (IF s1.pos >= 0 /\ s1.open
+                                                                            THEN Min({HalfBs0At(F1, s1, IF "cur11" \in DOMAIN e THEN e.cur11 ELSE -1), HalfBs0At(F2, s2, e.cur)})
+                                                                            ELSE HalfBs0At(F2, s2, e.cur)) \div 2
+                                                                      ELSE 0
+                                                          IN IF e.tell = s2.pos /\ s2.lap > new THEN s2.lap ELSE new,
                                                     !.pos = IF e.ret = 0 \/ e.tell = s2.pos THEN @ ELSE -1]])
             /\ UNCHANGED <<fidx, scn>>
        [] e.e = "Tell" ->
